@@ -204,4 +204,44 @@ theorem SC.chain_at_every_moment (c c' : SC) (pre post : List (Step × Blk)) (hc
   | none => rw [h1] at hr; cases hr
   | some c1 => exact ⟨c1, rfl, SC.run_chain c c1 pre hc h1⟩
 
+/-- events that tell about finality only: invisible to the push/pop consumer -/
+def seenByPushPop (sb : Step × Blk) : Bool := sb.1 == .new || sb.1 == .newIrreversible || sb.1 == .undo
+
+/-- dropping the events the push/pop consumer ignores changes nothing for it: what a stream with the default step
+    filter (New, new+irreversible, Undo) delivers is, for this consumer, the same as the unfiltered stream -/
+theorem SC.runSB_filter (c : SC) (evs : List (Step × Blk)) :
+    c.runSB (evs.filter seenByPushPop) = c.runSB evs := by
+  induction evs generalizing c with
+  | nil => rfl
+  | cons sb r ih =>
+    cases hst : sb.1 with
+    | new =>
+      rw [List.filter_cons_of_pos (by simp [seenByPushPop, hst])]
+      simp only [SC.runSB]
+      cases c.apply sb with
+      | none => rfl
+      | some c' => exact ih c'
+    | newIrreversible =>
+      rw [List.filter_cons_of_pos (by simp [seenByPushPop, hst])]
+      simp only [SC.runSB]
+      cases c.apply sb with
+      | none => rfl
+      | some c' => exact ih c'
+    | undo =>
+      rw [List.filter_cons_of_pos (by simp [seenByPushPop, hst])]
+      simp only [SC.runSB]
+      cases c.apply sb with
+      | none => rfl
+      | some c' => exact ih c'
+    | irreversible =>
+      rw [List.filter_cons_of_neg (by simp [seenByPushPop, hst])]
+      have : c.apply sb = some c := by unfold SC.apply; rw [hst]
+      simp only [SC.runSB, this]
+      exact ih c
+    | stalled =>
+      rw [List.filter_cons_of_neg (by simp [seenByPushPop, hst])]
+      have : c.apply sb = some c := by unfold SC.apply; rw [hst]
+      simp only [SC.runSB, this]
+      exact ih c
+
 end BstreamVerif.Forkable
